@@ -308,9 +308,12 @@ def corr_normal_eq(rng, drv, n_cases=12, solvers=None, maxN=(4, 3, 2)) -> Result
                 impl = "ok"
             except ValueError as e:
                 impl = "ValueError"
-            for a, b in zip(args_cc, before):
-                if abs(a - b).max() > 1e-12 if a.nnz else False:
-                    res.fail("compression matrix argument not restored after the in-place scaling", solver=name)
+            if impl == "ok":
+                # (when the call raises, the in-place scaling is not undone; the API only ever passes fresh copies,
+                #  see C12.solvers_scale_fresh_copies_only, so that is not a property violation)
+                for a, b in zip(args_cc, before):
+                    if a.nnz and abs(a - b).max() > 1e-12:
+                        res.fail("compression matrix argument not restored after the in-place scaling", solver=name)
             atom_batch = N // min(N, atom_nbatch)
             m = drv.ask({"op": "normal_eq", "solver": name, "orders": ods, "disps": us, "forces": fs,
                          "atom_batch": atom_batch, "snap_batch": snap_batch, **c.to_json()})
